@@ -11,7 +11,7 @@ from svm.monitors import FrameMonitor, MemMonitor
 import svm
 
 PROPERTY = 'C08'
-RULE = ('Hypothesis-generated programs with arrays (literal with call-valued elements, dynamic, aliased, passed) declared in '
+RULE = ('(1) Hypothesis-generated programs with arrays (literal with call-valued elements, dynamic, aliased, passed) declared in '
         'nested blocks, loop bodies, callees and try bodies, left by every route: falling through, break, continue, return '
         '(also out of try bodies and preempt blocks), defeat caught by a stop block from call depth 0-2; argv; word sizes '
         '{2,3,4,8}. Oracle: a replay monitor on the committed path keyed on the emitted labels - a call returns to its '
@@ -20,14 +20,19 @@ RULE = ('Hypothesis-generated programs with arrays (literal with call-valued ele
         'see the (fp, ap) of try entry - plus the C04 entitlement monitor (an array released early shows as an access outside '
         'every live extent) and the differential against the reference interpreter at 400 words and at the minimal stack size '
         '(a leak shows as a spurious stack_overflow). Non-trivial: the run released at least one array through a break, '
-        'continue or return statement, or entered a stop handler. Distinct by hash of (source, argv, word size).')
+        'continue or return statement, or entered a stop handler. Distinct by hash of (source, argv, word size). (2) ScopeHistory, a '
+        'RuleBasedStateMachine (props/c08_machine.py): rules append segments to the body of one counted loop, each guarded by the '
+        'iteration number modulo a period P, so that successive iterations leave by different routes (fall through, continue, nested '
+        'blocks, defeat caught from call depth 0-2 by stop/undo, continue out of a try body or handler, callees that return early while '
+        'holding arrays, inner loops with break/continue); after every rule the program runs under both monitors and against the reference, '
+        'and its minimal stack size for P iterations must equal the one for 3P iterations (footprint independent of the iteration count).')
 ASSUMPTIONS = ['verification Sphinx VM (svm); label naming scheme of hidc (loop_N, continue_N, break_N, end_call_N, begin_try_N, '
                'try_handler_N, end_try_N): if it changes the monitor cannot attach and the check exits 2']
 MIN_NONTRIVIAL = 100
 
 
 def shards(tier):
-    return list(range(16))
+    return list(range(16)) + [('machine', k) for k in range(4)]
 
 
 def check_case(stats, case):
@@ -81,6 +86,11 @@ def check_case(stats, case):
 
 def run_shard(k, seed, tier):
     stats = Stats()
+    if isinstance(k, tuple):
+        from props.c08_machine import run_machine
+        run_machine(derive_seed(seed, 'C08', 'machine', k[1]), 25 if tier == 'quick' else 600, stats, steps=6, shrink=(tier == 'thorough'))
+        stats.sample({'kind': 'ScopeHistory state machine', 'oracle': 'monitors + reference after every rule; S_min for P and 3P iterations equal'})
+        return stats
     n = 170 if tier == 'quick' else 4000
     feats = (ALL_FEATURES if k % 2 else SEQ_FEATURES) - {'terminal', 'faults', 'bigvals'}
     strat = programs(features=feats, size=dict(main_stmts=10, funcs=4, decl_array_weight=24, break_weight=12, return_weight=8,
@@ -102,6 +112,9 @@ def run_shard(k, seed, tier):
 
 
 def replay(case):
+    if case.get('kind') == 'machine':
+        from props.c08_machine import replay_machine
+        return replay_machine(case)
     prog, vals, ws = case_from_json(case)
     try:
         r = check_case(Stats(), (prog, vals, ws))
